@@ -8,6 +8,7 @@
 (* Include recursion runs through the PlusCal call stack:                  *)
 (*   RawLoad(v) parses v and, for every url u in IncSeq(v), calls          *)
 (*   Deferred(u); Load(u)  (Section.include: deferred_load then load).     *)
+(* touch(u) (caller only) stands for the resource changing at its source.   *)
 (* refresh(u) sets the reload flag, clears the loaded table in one step,    *)
 (* loads u and resets the flag.  The download cache is a function          *)
 (* url -> "absent" | "fresh" | "stale": a fresh copy is used without a     *)
@@ -46,6 +47,7 @@ variables loaded = [uu \in URLS |-> Absent],     \* Terminologies dict: url -> d
           cache = CacheInit,                      \* url -> "absent" | "fresh" | "stale"
           reload = FALSE,                         \* Terminologies.reload_cache
           epoch = 0,                              \* number of refresh calls the caller has begun
+          ver = [uu \in URLS |-> 0],              \* how often the caller has changed the resource at its source ("touch")
           ret = [pp \in Procs |-> Absent];
 
 procedure Load(u)
@@ -110,6 +112,8 @@ process (M \in {Main})
  RfClear:    loaded := [uu \in URLS |-> Absent];
              call Load(Prog[k][2]);
  RfDone:     reload := FALSE;
+          } else if (Prog[k][1] = "touch") {
+ MTouch:     ver[Prog[k][2]] := ver[Prog[k][2]] + 1;     \* the resource changes at its source; caches and tables do not notice
           } else {
              call Deferred(Prog[k][2]);
           };
@@ -127,10 +131,11 @@ process (T \in Thr)
 \* BEGIN TRANSLATION
 CONSTANT defaultInitValue
 VARIABLES pc, loaded, loading, tstate, targ, nthr, ndoc, err, results, cachew, 
-          cache, reload, epoch, ret, stack, u, jt, v, i, doc, w, newt, st, k
+          cache, reload, epoch, ver, ret, stack, u, jt, v, i, doc, w, newt, 
+          st, k
 
 vars == << pc, loaded, loading, tstate, targ, nthr, ndoc, err, results, 
-           cachew, cache, reload, epoch, ret, stack, u, jt, v, i, doc, w, 
+           cachew, cache, reload, epoch, ver, ret, stack, u, jt, v, i, doc, w, 
            newt, st, k >>
 
 ProcSet == ({Main}) \cup (Thr)
@@ -148,6 +153,7 @@ Init == (* Global variables *)
         /\ cache = CacheInit
         /\ reload = FALSE
         /\ epoch = 0
+        /\ ver = [uu \in URLS |-> 0]
         /\ ret = [pp \in Procs |-> Absent]
         (* Procedure Load *)
         /\ u = [ self \in ProcSet |-> defaultInitValue]
@@ -171,7 +177,7 @@ LdIn(self) == /\ pc[self] = "LdIn"
                     THEN /\ pc' = [pc EXCEPT ![self] = "LdGet"]
                     ELSE /\ pc' = [pc EXCEPT ![self] = "LgIn"]
               /\ UNCHANGED << loaded, loading, tstate, targ, nthr, ndoc, err, 
-                              results, cachew, cache, reload, epoch, ret, 
+                              results, cachew, cache, reload, epoch, ver, ret, 
                               stack, u, jt, v, i, doc, w, newt, st, k >>
 
 LdGet(self) == /\ pc[self] = "LdGet"
@@ -181,15 +187,15 @@ LdGet(self) == /\ pc[self] = "LdGet"
                /\ u' = [u EXCEPT ![self] = Head(stack[self]).u]
                /\ stack' = [stack EXCEPT ![self] = Tail(stack[self])]
                /\ UNCHANGED << loaded, loading, tstate, targ, nthr, ndoc, err, 
-                               results, cachew, cache, reload, epoch, v, i, 
-                               doc, w, newt, st, k >>
+                               results, cachew, cache, reload, epoch, ver, v, 
+                               i, doc, w, newt, st, k >>
 
 LgIn(self) == /\ pc[self] = "LgIn"
               /\ IF loading[u[self]] # 0
                     THEN /\ pc' = [pc EXCEPT ![self] = "LgGet"]
                     ELSE /\ pc' = [pc EXCEPT ![self] = "Raw"]
               /\ UNCHANGED << loaded, loading, tstate, targ, nthr, ndoc, err, 
-                              results, cachew, cache, reload, epoch, ret, 
+                              results, cachew, cache, reload, epoch, ver, ret, 
                               stack, u, jt, v, i, doc, w, newt, st, k >>
 
 LgGet(self) == /\ pc[self] = "LgGet"
@@ -200,7 +206,7 @@ LgGet(self) == /\ pc[self] = "LgGet"
                      ELSE /\ pc' = [pc EXCEPT ![self] = "Join"]
                           /\ err' = err
                /\ UNCHANGED << loaded, loading, tstate, targ, nthr, ndoc, 
-                               results, cachew, cache, reload, epoch, ret, 
+                               results, cachew, cache, reload, epoch, ver, ret, 
                                stack, u, v, i, doc, w, newt, st, k >>
 
 Join(self) == /\ pc[self] = "Join"
@@ -212,15 +218,15 @@ Join(self) == /\ pc[self] = "Join"
                                ELSE /\ pc' = [pc EXCEPT ![self] = "LgPop"]
                          /\ err' = err
               /\ UNCHANGED << loaded, loading, tstate, targ, nthr, ndoc, 
-                              results, cachew, cache, reload, epoch, ret, 
+                              results, cachew, cache, reload, epoch, ver, ret, 
                               stack, u, jt, v, i, doc, w, newt, st, k >>
 
 Joined(self) == /\ pc[self] = "Joined"
                 /\ tstate[jt[self]] = "done"
                 /\ pc' = [pc EXCEPT ![self] = "LgPop"]
                 /\ UNCHANGED << loaded, loading, tstate, targ, nthr, ndoc, err, 
-                                results, cachew, cache, reload, epoch, ret, 
-                                stack, u, jt, v, i, doc, w, newt, st, k >>
+                                results, cachew, cache, reload, epoch, ver, 
+                                ret, stack, u, jt, v, i, doc, w, newt, st, k >>
 
 LgPop(self) == /\ pc[self] = "LgPop"
                /\ loading' = [loading EXCEPT ![u[self]] = 0]
@@ -233,8 +239,8 @@ LgPop(self) == /\ pc[self] = "LgPop"
                /\ jt' = [jt EXCEPT ![self] = 0]
                /\ pc' = [pc EXCEPT ![self] = "LdIn"]
                /\ UNCHANGED << loaded, tstate, targ, nthr, ndoc, err, results, 
-                               cachew, cache, reload, epoch, ret, v, i, doc, w, 
-                               newt, st, k >>
+                               cachew, cache, reload, epoch, ver, ret, v, i, 
+                               doc, w, newt, st, k >>
 
 LdRet(self) == /\ pc[self] = "LdRet"
                /\ pc' = [pc EXCEPT ![self] = Head(stack[self]).pc]
@@ -242,8 +248,8 @@ LdRet(self) == /\ pc[self] = "LdRet"
                /\ u' = [u EXCEPT ![self] = Head(stack[self]).u]
                /\ stack' = [stack EXCEPT ![self] = Tail(stack[self])]
                /\ UNCHANGED << loaded, loading, tstate, targ, nthr, ndoc, err, 
-                               results, cachew, cache, reload, epoch, ret, v, 
-                               i, doc, w, newt, st, k >>
+                               results, cachew, cache, reload, epoch, ver, ret, 
+                               v, i, doc, w, newt, st, k >>
 
 Raw(self) == /\ pc[self] = "Raw"
              /\ /\ stack' = [stack EXCEPT ![self] = << [ procedure |->  "RawLoad",
@@ -257,8 +263,8 @@ Raw(self) == /\ pc[self] = "Raw"
              /\ doc' = [doc EXCEPT ![self] = NoneV]
              /\ pc' = [pc EXCEPT ![self] = "RFetch"]
              /\ UNCHANGED << loaded, loading, tstate, targ, nthr, ndoc, err, 
-                             results, cachew, cache, reload, epoch, ret, u, jt, 
-                             w, newt, st, k >>
+                             results, cachew, cache, reload, epoch, ver, ret, 
+                             u, jt, w, newt, st, k >>
 
 RawRet(self) == /\ pc[self] = "RawRet"
                 /\ pc' = [pc EXCEPT ![self] = Head(stack[self]).pc]
@@ -266,8 +272,8 @@ RawRet(self) == /\ pc[self] = "RawRet"
                 /\ u' = [u EXCEPT ![self] = Head(stack[self]).u]
                 /\ stack' = [stack EXCEPT ![self] = Tail(stack[self])]
                 /\ UNCHANGED << loaded, loading, tstate, targ, nthr, ndoc, err, 
-                                results, cachew, cache, reload, epoch, ret, v, 
-                                i, doc, w, newt, st, k >>
+                                results, cachew, cache, reload, epoch, ver, 
+                                ret, v, i, doc, w, newt, st, k >>
 
 Halt(self) == /\ pc[self] = "Halt"
               /\ IF self # Main
@@ -276,14 +282,14 @@ Halt(self) == /\ pc[self] = "Halt"
                          /\ UNCHANGED tstate
               /\ pc' = [pc EXCEPT ![self] = "HDead"]
               /\ UNCHANGED << loaded, loading, targ, nthr, ndoc, err, results, 
-                              cachew, cache, reload, epoch, ret, stack, u, jt, 
-                              v, i, doc, w, newt, st, k >>
+                              cachew, cache, reload, epoch, ver, ret, stack, u, 
+                              jt, v, i, doc, w, newt, st, k >>
 
 HDead(self) == /\ pc[self] = "HDead"
                /\ FALSE
                /\ pc' = [pc EXCEPT ![self] = "Error"]
                /\ UNCHANGED << loaded, loading, tstate, targ, nthr, ndoc, err, 
-                               results, cachew, cache, reload, epoch, ret, 
+                               results, cachew, cache, reload, epoch, ver, ret, 
                                stack, u, jt, v, i, doc, w, newt, st, k >>
 
 Load(self) == LdIn(self) \/ LdGet(self) \/ LgIn(self) \/ LgGet(self)
@@ -310,7 +316,8 @@ RFetch(self) == /\ pc[self] = "RFetch"
                                       /\ pc' = [pc EXCEPT ![self] = "RParse"]
                                       /\ UNCHANGED << ret, stack, v, i, doc >>
                 /\ UNCHANGED << loaded, loading, tstate, targ, nthr, ndoc, err, 
-                                results, reload, epoch, u, jt, w, newt, st, k >>
+                                results, reload, epoch, ver, u, jt, w, newt, 
+                                st, k >>
 
 RParse(self) == /\ pc[self] = "RParse"
                 /\ IF ~Parse[v[self]]
@@ -321,8 +328,8 @@ RParse(self) == /\ pc[self] = "RParse"
                            /\ doc' = [doc EXCEPT ![self] = ndoc']
                            /\ pc' = [pc EXCEPT ![self] = "Loop"]
                 /\ UNCHANGED << loaded, loading, tstate, targ, nthr, err, 
-                                results, cachew, cache, reload, epoch, ret, 
-                                stack, u, jt, v, i, w, newt, st, k >>
+                                results, cachew, cache, reload, epoch, ver, 
+                                ret, stack, u, jt, v, i, w, newt, st, k >>
 
 Loop(self) == /\ pc[self] = "Loop"
               /\ IF i[self] <= Len(IncSeq(v[self]))
@@ -339,8 +346,8 @@ Loop(self) == /\ pc[self] = "Loop"
                     ELSE /\ pc' = [pc EXCEPT ![self] = "Pub"]
                          /\ UNCHANGED << stack, w, newt, st >>
               /\ UNCHANGED << loaded, loading, tstate, targ, nthr, ndoc, err, 
-                              results, cachew, cache, reload, epoch, ret, u, 
-                              jt, v, i, doc, k >>
+                              results, cachew, cache, reload, epoch, ver, ret, 
+                              u, jt, v, i, doc, k >>
 
 IncLoad(self) == /\ pc[self] = "IncLoad"
                  /\ /\ stack' = [stack EXCEPT ![self] = << [ procedure |->  "Load",
@@ -353,14 +360,15 @@ IncLoad(self) == /\ pc[self] = "IncLoad"
                  /\ pc' = [pc EXCEPT ![self] = "LdIn"]
                  /\ UNCHANGED << loaded, loading, tstate, targ, nthr, ndoc, 
                                  err, results, cachew, cache, reload, epoch, 
-                                 ret, v, i, doc, w, newt, st, k >>
+                                 ver, ret, v, i, doc, w, newt, st, k >>
 
 IncNext(self) == /\ pc[self] = "IncNext"
                  /\ i' = [i EXCEPT ![self] = i[self] + 1]
                  /\ pc' = [pc EXCEPT ![self] = "Loop"]
                  /\ UNCHANGED << loaded, loading, tstate, targ, nthr, ndoc, 
                                  err, results, cachew, cache, reload, epoch, 
-                                 ret, stack, u, jt, v, doc, w, newt, st, k >>
+                                 ver, ret, stack, u, jt, v, doc, w, newt, st, 
+                                 k >>
 
 Pub(self) == /\ pc[self] = "Pub"
              /\ loaded' = [loaded EXCEPT ![v[self]] = doc[self]]
@@ -371,8 +379,8 @@ Pub(self) == /\ pc[self] = "Pub"
              /\ v' = [v EXCEPT ![self] = Head(stack[self]).v]
              /\ stack' = [stack EXCEPT ![self] = Tail(stack[self])]
              /\ UNCHANGED << loading, tstate, targ, nthr, ndoc, err, results, 
-                             cachew, cache, reload, epoch, u, jt, w, newt, st, 
-                             k >>
+                             cachew, cache, reload, epoch, ver, u, jt, w, newt, 
+                             st, k >>
 
 RawLoad(self) == RFetch(self) \/ RParse(self) \/ Loop(self)
                     \/ IncLoad(self) \/ IncNext(self) \/ Pub(self)
@@ -387,8 +395,8 @@ DfLdIn(self) == /\ pc[self] = "DfLdIn"
                       ELSE /\ pc' = [pc EXCEPT ![self] = "DfLgIn"]
                            /\ UNCHANGED << stack, w, newt, st >>
                 /\ UNCHANGED << loaded, loading, tstate, targ, nthr, ndoc, err, 
-                                results, cachew, cache, reload, epoch, ret, u, 
-                                jt, v, i, doc, k >>
+                                results, cachew, cache, reload, epoch, ver, 
+                                ret, u, jt, v, i, doc, k >>
 
 DfLgIn(self) == /\ pc[self] = "DfLgIn"
                 /\ IF loading[w[self]] # 0
@@ -405,14 +413,15 @@ DfLgIn(self) == /\ pc[self] = "DfLgIn"
                            /\ pc' = [pc EXCEPT ![self] = "DfSet"]
                            /\ UNCHANGED << stack, w, st >>
                 /\ UNCHANGED << loaded, loading, ndoc, err, results, cachew, 
-                                cache, reload, epoch, ret, u, jt, v, i, doc, k >>
+                                cache, reload, epoch, ver, ret, u, jt, v, i, 
+                                doc, k >>
 
 DfSet(self) == /\ pc[self] = "DfSet"
                /\ loading' = [loading EXCEPT ![w[self]] = newt[self]]
                /\ pc' = [pc EXCEPT ![self] = "DfGet"]
                /\ UNCHANGED << loaded, tstate, targ, nthr, ndoc, err, results, 
-                               cachew, cache, reload, epoch, ret, stack, u, jt, 
-                               v, i, doc, w, newt, st, k >>
+                               cachew, cache, reload, epoch, ver, ret, stack, 
+                               u, jt, v, i, doc, w, newt, st, k >>
 
 DfGet(self) == /\ pc[self] = "DfGet"
                /\ st' = [st EXCEPT ![self] = loading[w[self]]]
@@ -422,7 +431,7 @@ DfGet(self) == /\ pc[self] = "DfGet"
                      ELSE /\ pc' = [pc EXCEPT ![self] = "DfStart"]
                           /\ err' = err
                /\ UNCHANGED << loaded, loading, tstate, targ, nthr, ndoc, 
-                               results, cachew, cache, reload, epoch, ret, 
+                               results, cachew, cache, reload, epoch, ver, ret, 
                                stack, u, jt, v, i, doc, w, newt, k >>
 
 DfStart(self) == /\ pc[self] = "DfStart"
@@ -438,8 +447,8 @@ DfStart(self) == /\ pc[self] = "DfStart"
                             /\ stack' = [stack EXCEPT ![self] = Tail(stack[self])]
                             /\ err' = err
                  /\ UNCHANGED << loaded, loading, targ, nthr, ndoc, results, 
-                                 cachew, cache, reload, epoch, ret, u, jt, v, 
-                                 i, doc, k >>
+                                 cachew, cache, reload, epoch, ver, ret, u, jt, 
+                                 v, i, doc, k >>
 
 DHalt(self) == /\ pc[self] = "DHalt"
                /\ IF self # Main
@@ -448,14 +457,14 @@ DHalt(self) == /\ pc[self] = "DHalt"
                           /\ UNCHANGED tstate
                /\ pc' = [pc EXCEPT ![self] = "DDead"]
                /\ UNCHANGED << loaded, loading, targ, nthr, ndoc, err, results, 
-                               cachew, cache, reload, epoch, ret, stack, u, jt, 
-                               v, i, doc, w, newt, st, k >>
+                               cachew, cache, reload, epoch, ver, ret, stack, 
+                               u, jt, v, i, doc, w, newt, st, k >>
 
 DDead(self) == /\ pc[self] = "DDead"
                /\ FALSE
                /\ pc' = [pc EXCEPT ![self] = "Error"]
                /\ UNCHANGED << loaded, loading, tstate, targ, nthr, ndoc, err, 
-                               results, cachew, cache, reload, epoch, ret, 
+                               results, cachew, cache, reload, epoch, ver, ret, 
                                stack, u, jt, v, i, doc, w, newt, st, k >>
 
 Deferred(self) == DfLdIn(self) \/ DfLgIn(self) \/ DfSet(self)
@@ -466,8 +475,8 @@ MBegin(self) == /\ pc[self] = "MBegin"
                 /\ TRUE
                 /\ pc' = [pc EXCEPT ![self] = "MLoop"]
                 /\ UNCHANGED << loaded, loading, tstate, targ, nthr, ndoc, err, 
-                                results, cachew, cache, reload, epoch, ret, 
-                                stack, u, jt, v, i, doc, w, newt, st, k >>
+                                results, cachew, cache, reload, epoch, ver, 
+                                ret, stack, u, jt, v, i, doc, w, newt, st, k >>
 
 MLoop(self) == /\ pc[self] = "MLoop"
                /\ IF k[self] <= Len(Prog)
@@ -488,37 +497,43 @@ MLoop(self) == /\ pc[self] = "MLoop"
                                                 /\ pc' = [pc EXCEPT ![self] = "RfClear"]
                                                 /\ UNCHANGED << stack, w, newt, 
                                                                 st >>
-                                           ELSE /\ /\ stack' = [stack EXCEPT ![self] = << [ procedure |->  "Deferred",
-                                                                                            pc        |->  "MNext",
-                                                                                            newt      |->  newt[self],
-                                                                                            st        |->  st[self],
-                                                                                            w         |->  w[self] ] >>
-                                                                                        \o stack[self]]
-                                                   /\ w' = [w EXCEPT ![self] = Prog[k[self]][2]]
-                                                /\ newt' = [newt EXCEPT ![self] = 0]
-                                                /\ st' = [st EXCEPT ![self] = 0]
-                                                /\ pc' = [pc EXCEPT ![self] = "DfLdIn"]
+                                           ELSE /\ IF Prog[k[self]][1] = "touch"
+                                                      THEN /\ pc' = [pc EXCEPT ![self] = "MTouch"]
+                                                           /\ UNCHANGED << stack, 
+                                                                           w, 
+                                                                           newt, 
+                                                                           st >>
+                                                      ELSE /\ /\ stack' = [stack EXCEPT ![self] = << [ procedure |->  "Deferred",
+                                                                                                       pc        |->  "MNext",
+                                                                                                       newt      |->  newt[self],
+                                                                                                       st        |->  st[self],
+                                                                                                       w         |->  w[self] ] >>
+                                                                                                   \o stack[self]]
+                                                              /\ w' = [w EXCEPT ![self] = Prog[k[self]][2]]
+                                                           /\ newt' = [newt EXCEPT ![self] = 0]
+                                                           /\ st' = [st EXCEPT ![self] = 0]
+                                                           /\ pc' = [pc EXCEPT ![self] = "DfLdIn"]
                                                 /\ UNCHANGED << reload, epoch >>
                                      /\ UNCHANGED << u, jt >>
                      ELSE /\ pc' = [pc EXCEPT ![self] = "Done"]
                           /\ UNCHANGED << reload, epoch, stack, u, jt, w, newt, 
                                           st >>
                /\ UNCHANGED << loaded, loading, tstate, targ, nthr, ndoc, err, 
-                               results, cachew, cache, ret, v, i, doc, k >>
+                               results, cachew, cache, ver, ret, v, i, doc, k >>
 
 MNext(self) == /\ pc[self] = "MNext"
                /\ k' = [k EXCEPT ![self] = k[self] + 1]
                /\ pc' = [pc EXCEPT ![self] = "MLoop"]
                /\ UNCHANGED << loaded, loading, tstate, targ, nthr, ndoc, err, 
-                               results, cachew, cache, reload, epoch, ret, 
+                               results, cachew, cache, reload, epoch, ver, ret, 
                                stack, u, jt, v, i, doc, w, newt, st >>
 
 MRes(self) == /\ pc[self] = "MRes"
               /\ results' = Append(results, <<Prog[k[self]][2], ret[self], epoch>>)
               /\ pc' = [pc EXCEPT ![self] = "MNext"]
               /\ UNCHANGED << loaded, loading, tstate, targ, nthr, ndoc, err, 
-                              cachew, cache, reload, epoch, ret, stack, u, jt, 
-                              v, i, doc, w, newt, st, k >>
+                              cachew, cache, reload, epoch, ver, ret, stack, u, 
+                              jt, v, i, doc, w, newt, st, k >>
 
 RfClear(self) == /\ pc[self] = "RfClear"
                  /\ loaded' = [uu \in URLS |-> Absent]
@@ -531,25 +546,32 @@ RfClear(self) == /\ pc[self] = "RfClear"
                  /\ jt' = [jt EXCEPT ![self] = 0]
                  /\ pc' = [pc EXCEPT ![self] = "LdIn"]
                  /\ UNCHANGED << loading, tstate, targ, nthr, ndoc, err, 
-                                 results, cachew, cache, reload, epoch, ret, v, 
-                                 i, doc, w, newt, st, k >>
+                                 results, cachew, cache, reload, epoch, ver, 
+                                 ret, v, i, doc, w, newt, st, k >>
 
 RfDone(self) == /\ pc[self] = "RfDone"
                 /\ reload' = FALSE
                 /\ pc' = [pc EXCEPT ![self] = "MNext"]
                 /\ UNCHANGED << loaded, loading, tstate, targ, nthr, ndoc, err, 
-                                results, cachew, cache, epoch, ret, stack, u, 
-                                jt, v, i, doc, w, newt, st, k >>
+                                results, cachew, cache, epoch, ver, ret, stack, 
+                                u, jt, v, i, doc, w, newt, st, k >>
+
+MTouch(self) == /\ pc[self] = "MTouch"
+                /\ ver' = [ver EXCEPT ![Prog[k[self]][2]] = ver[Prog[k[self]][2]] + 1]
+                /\ pc' = [pc EXCEPT ![self] = "MNext"]
+                /\ UNCHANGED << loaded, loading, tstate, targ, nthr, ndoc, err, 
+                                results, cachew, cache, reload, epoch, ret, 
+                                stack, u, jt, v, i, doc, w, newt, st, k >>
 
 M(self) == MBegin(self) \/ MLoop(self) \/ MNext(self) \/ MRes(self)
-              \/ RfClear(self) \/ RfDone(self)
+              \/ RfClear(self) \/ RfDone(self) \/ MTouch(self)
 
 TBegin(self) == /\ pc[self] = "TBegin"
                 /\ tstate[self] = "running"
                 /\ pc' = [pc EXCEPT ![self] = "TRun"]
                 /\ UNCHANGED << loaded, loading, tstate, targ, nthr, ndoc, err, 
-                                results, cachew, cache, reload, epoch, ret, 
-                                stack, u, jt, v, i, doc, w, newt, st, k >>
+                                results, cachew, cache, reload, epoch, ver, 
+                                ret, stack, u, jt, v, i, doc, w, newt, st, k >>
 
 TRun(self) == /\ pc[self] = "TRun"
               /\ /\ stack' = [stack EXCEPT ![self] = << [ procedure |->  "RawLoad",
@@ -563,15 +585,15 @@ TRun(self) == /\ pc[self] = "TRun"
               /\ doc' = [doc EXCEPT ![self] = NoneV]
               /\ pc' = [pc EXCEPT ![self] = "RFetch"]
               /\ UNCHANGED << loaded, loading, tstate, targ, nthr, ndoc, err, 
-                              results, cachew, cache, reload, epoch, ret, u, 
-                              jt, w, newt, st, k >>
+                              results, cachew, cache, reload, epoch, ver, ret, 
+                              u, jt, w, newt, st, k >>
 
 TDone(self) == /\ pc[self] = "TDone"
                /\ tstate' = [tstate EXCEPT ![self] = "done"]
                /\ pc' = [pc EXCEPT ![self] = "Done"]
                /\ UNCHANGED << loaded, loading, targ, nthr, ndoc, err, results, 
-                               cachew, cache, reload, epoch, ret, stack, u, jt, 
-                               v, i, doc, w, newt, st, k >>
+                               cachew, cache, reload, epoch, ver, ret, stack, 
+                               u, jt, v, i, doc, w, newt, st, k >>
 
 T(self) == TBegin(self) \/ TRun(self) \/ TDone(self)
 
